@@ -2,7 +2,10 @@ package absnfs
 
 // C17 — connections are bounded, accounted, reaped when idle, and fully shut down.
 
-import "encoding/json"
+import (
+	"encoding/json"
+	"time"
+)
 
 func init() {
 	vRegister(&vCheck{
@@ -11,7 +14,9 @@ func init() {
 		rule: "stateless model checking of the real Server (source-instrumented, controlled scheduler, virtual clock; net.Listen is the harness's scheduler-visible listener, connections are scheduler-visible net.Conns that honour read deadlines on the virtual clock). Scenarios: MaxConnections 1-2 with 2-4 clients that connect concurrently and either call and close, call and stay idle, or connect and close; afterwards 21 s of virtual time pass (IdleTimeout 10 s) and the server is stopped, or a stopper calls Stop concurrently with the clients. Every choice sequence within D-bound 2 (thorough D-bound 3, P-bound 2) is executed; early firing of the earliest pending timer (idle ticker, read deadlines, Stop's 5 s wait) is a deviation. Oracles: connections being served at once <= MaxConnections; connCount == |tracked connections| and 0 <= connCount <= MaxConnections whenever no thread is inside the bookkeeping critical section; an accepted call is answered before its connection ends (no concurrent Stop); after the idle period every accepted connection is closed and connCount is 0; when Stop returns nil: listener closed, every accepted connection closed, none served, connCount 0, no accept/connection/idle goroutine alive; at the end nothing started by the server is blocked forever; a second Stop is harmless. Close clause: after real traffic (MNT, LOOKUPs, READDIR) with a connection left open, all 27 sequences of three calls from {Close, Unexport, Stop} run sequentially, and Close / Unexport (thorough: Stop) also run concurrently with a second client's MNT+LOOKUP under the scheduler: no call fails or blocks, connections are closed when a call returns, Close/Unexport leave zero handles and empty caches, and nothing reappears afterwards.",
 		assumptions: []string{"the listener and connections are harness objects: TCP-specific socket options are not exercised",
 			"scheduling points are the synchronisation operations of the instrumented package; plain memory accesses between them are atomic steps"},
-		run:    func(c *vCtx) { vSchedRun(c, "C17", c17Scenarios(c.thorough())) },
+		run: func(c *vCtx) {
+			vSchedRunBudget(c, "C17", c17Scenarios(c.thorough()), []vPlan{{"D", 2}}, []vPlan{{"D", 3}, {"P", 2}}, 30*time.Minute)
+		},
 		replay: func(c *vCtx, raw json.RawMessage) { vSchedReplay(c, "C17", c17Scenarios(true), raw) },
 	})
 }
